@@ -338,7 +338,7 @@ def downsample_uniform_case(draw, tier="quick"):
 def powerlaw_case(draw, tier="quick"):
     size = draw(st.sampled_from([0, 1, 7, 100, 1000, 20000, 100000]))
     return {"size": size, "xmin": draw(st.integers(1, 50)),
-            "alpha": draw(st.sampled_from([1.05, 1.2, 1.5, 2.0, 2.5, 3.0, 4.5, 6.0]) | st.floats(1.01, 6.0).map(lambda v: round(v, 3))),
+            "alpha": draw(st.sampled_from([1.002, 1.01, 1.05, 1.2, 1.5, 2.0, 2.5, 3.0, 4.5, 6.0]) | st.floats(1.01, 6.0).map(lambda v: round(v, 3))),
             "np_seed": draw(st.integers(0, 2 ** 32 - 1))}
 
 
@@ -354,6 +354,9 @@ def mle_case(draw, tier="quick"):
         c = [int(math.floor((xm - 0.5) * (1 - (i + 0.5) / k) ** (-1 / (a - 1)) + 0.5)) for i in range(k)]
     else:
         c = draw(st.lists(st.integers(1, 200), min_size=1, max_size=40))
+        if draw(st.integers(0, 2)) == 0:
+            c = c + [0] * draw(st.integers(1, 3))          # clones that were not observed: below every cmin >= 1
+            c = list(draw(st.permutations(c)))
     cmin = draw(st.sampled_from([1, 1, 2, 3, 5, 10]))
     case = {"c": c, "cmin": cmin, "method": method, "as": draw(st.sampled_from(["list", "array"]))}
     if method == "exact" and draw(st.booleans()):
